@@ -1,6 +1,7 @@
 //! Provides HTTP proxy functionality.
 
 use crate::config::LoadBalancerMode;
+use crate::r#static::is_blacklisted;
 use crate::rand::{Choose, Lcg};
 use crate::server::server::AppState;
 
@@ -65,12 +66,7 @@ pub fn proxy_handler(
     }
 
     // Return error 403 if the address was blacklisted
-    if state
-        .config
-        .blacklist
-        .list
-        .contains(&request.address.origin_addr)
-    {
+    if is_blacklisted(&request, &state) {
         state.logger.warn(format!(
             "{}: Blacklisted IP attempted to request {}",
             request.address, request.uri
